@@ -20,6 +20,7 @@ FOCUS = {
     "C06": ["deferred", "hook"],
     "C14": ["at", "at", "mixed"],
     "C09": ["hook", "deferred", "lifecycle", "mixed"],
+    "C02": ["lifecycle", "lifecycle", "mixed"],
 }
 COUNTS = {"quick": 160, "thorough": 3000}
 SIM = {"quick": 100, "thorough": 1200}
@@ -160,6 +161,8 @@ NONTRIVIAL = {
     "C14": lambda tr, rec: any(e["ev"] == "at" and e["in"]["acts"] and e["pst"]["active"]
                                for e in tr["ev"]),
     "C09": lambda tr, rec: rec["cnt"]["open"] > 0,
+    "C02": lambda tr, rec: sum(1 for e in tr["ev"] if e["ev"] == "pev"
+                               and e["name"] == "PrintStarted") >= 2,
 }
 
 RULES = {
@@ -172,6 +175,8 @@ RULES = {
     "C15": "histories with prints ending inside and outside episodes; non-trivial = the "
            "after-print hook closed an open episode at least once",
     "C06": "plugin histories with deferred codes; non-trivial = at least one command deferred",
+    "C02": "plugin histories with several prints (regions cleared by file selection or at print "
+           "end in between); non-trivial = at least two prints",
     "C09": "plugin histories (scripts and deferred codes configured through the settings, "
            "incl. comment-only script lines); non-trivial = at least one episode opened",
     "C14": "plugin histories whose @-command action table comes from the plugin settings "
